@@ -8,7 +8,7 @@
 From Coq Require Import List NArith ZArith Bool.
 From Atlas Require Import Base.Bytes Qual.Builder Qual.BuilderProofs Qual.Scope Qual.ScopeProofs
   Qual.RefSkeleton Qual.RefSkeletonProofs Qual.Lexq Qual.LexqProofs Qual.Replay Qual.ReplayProofs Qual.ChainEnd
-  Qual.RefSkeletonSeq Qual.StmtLex Qual.StmtLexProofs.
+  Qual.RefSkeletonSeq Qual.StmtLex Qual.StmtLexProofs Qual.Checkpoint Qual.CheckpointProofs.
 Import ListNotations.
 Open Scope N_scope.
 
@@ -377,6 +377,28 @@ Theorem C16_stmt_lex_round_trip_anywhere :
     rev (o_chains o1) ++ l :: after.
 Proof. exact lex_stmt_chain_anywhere. Qed.
 
+(** (e) [migrate.Planner.checkpoint], schema scope (CheckpointSchema): the replayed schema is diffed
+    against an empty schema of the SAME name, so whatever the dev database's schema is called the
+    checkpoint plan is never rejected by CheckChangesScope; it is the empty plan exactly when the
+    replayed schema holds neither a table nor an (enum) object.  [PlanWithExclude] only removes
+    replayed tables from the diff: a plan with exclusions is never rejected either. *)
+Theorem C16_checkpoint_never_rejected :
+  forall modified q mode dev objs cur,
+  dev <> [] -> forall r, Planner_checkpoint modified (Some q) mode dev objs cur <> PRejected r.
+Proof. exact checkpoint_never_rejects. Qed.
+
+Theorem C16_checkpoint_code :
+  forall modified q mode dev objs cur,
+  dev <> [] ->
+  Planner_checkpoint modified (Some q) mode dev objs cur =
+    match objs, cur with [], [] => PNoPlan | _, _ => PPlanned end.
+Proof. exact checkpoint_code. Qed.
+
+Theorem C16_replay_exclude_never_rejected :
+  forall modified excluded q mode dev user objs cur des,
+  user <> [] -> forall r, Planner_plan_exclude modified excluded (Some q) mode dev user objs cur des <> PRejected r.
+Proof. exact exclude_never_rejects. Qed.
+
 Print Assumptions C16_builder.
 Print Assumptions C16_builder_chain.
 Print Assumptions C16_builder_schema_kept.
@@ -404,6 +426,9 @@ Print Assumptions C16_skeleton_sequence_prefix.
 Print Assumptions C16_skeleton_drop_table_reverse.
 Print Assumptions C16_stmt_lex_round_trip.
 Print Assumptions C16_stmt_lex_round_trip_anywhere.
+Print Assumptions C16_checkpoint_never_rejected.
+Print Assumptions C16_checkpoint_code.
+Print Assumptions C16_replay_exclude_never_rejected.
 Print Assumptions C16_scope_sound.
 Print Assumptions C16_scope_refuted.
 Print Assumptions C16_scope_code.
@@ -607,3 +632,12 @@ Example ex_stmt_lex :
   lex_stmt true [65; 34; 97; 34] = ([[[97]]], [], true) /\          (* glued to the word before it *)
   lex_stmt false [96; 97] = ([[[97]]], [], true).                    (* unterminated *)
 Proof. repeat split; try (vm_compute; reflexivity); discriminate. Qed.
+
+(* C16_checkpoint_*: a replayed schema dev with two tables -> planned; empty -> the empty plan;
+   exclusion of t1: the next plan for [t2; t3] only adds t3 *)
+Example ex_checkpoint :
+  Planner_checkpoint never (Some []) 0 n_dev [] [t1; t2] = PPlanned /\
+  Planner_checkpoint never (Some []) 0 n_dev [] [] = PNoPlan /\
+  Planner_plan_exclude never (fun n => bytes_eqb n (rt_name t1)) (Some []) 0 n_dev n_app [] [t1; t2] [t2; t3] = PPlanned /\
+  exclude_tabs (fun n => bytes_eqb n (rt_name t1)) [t1; t2] = [t2].
+Proof. repeat split; vm_compute; reflexivity. Qed.
